@@ -76,7 +76,7 @@ def run(chk):
     chk.rule("R05.4", "no AttributeError / TypeError escapes (unset curve / key never dereferenced)")
     chk.rule("R05.5", "shared secret encoded with number_to_string(secret, field prime)")
     from . import formulas
-    formulas.ecdh_formula(chk, world().p, "C05", "R05.7")
+    formulas.deferred(chk, formulas.ecdh_formula, world().p, "C05", "R05.7")
     chk.configs = ["py3"]
     W = world()
     PRIV, PUB, CUR = ("field", "ECDH.private_key"), ("field", "ECDH.public_key"), ("field", "ECDH.curve")
